@@ -240,16 +240,5 @@ end Example
 
 /-! ## axioms -/
 
-#print axioms encodeFile_single_bytes
-#print axioms read_metadata_single
-#print axioms read_data_single
-#print axioms read_encode_single
-#print axioms denote_single_values
-#print axioms exSeg_read
-#print axioms exSeg_denote
-#print axioms exSeg_length
-#print axioms exSeg_std
-#print axioms exSeg_fits
-#print axioms exSeg_channels
 
 end Tdms.Proofs.C01Compose
